@@ -117,8 +117,15 @@ fn derive_help(target: &TargetType, groups: &[CommandGroup]) -> TokenStream {
         .map(|(i, group)| {
             let ty = &group.field_type;
             if i > 0 {
+                // only unknown command means that next group should be tried,
+                // write errors must be returned to the caller
                 quote! {
-                    .or_else(|_| <#ty as _cli::service::Help>::command_help(parent, command.clone(), writer))
+                    .or_else(|err| match err {
+                        _cli::service::HelpError::UnknownCommand => {
+                            <#ty as _cli::service::Help>::command_help(parent, command.clone(), writer)
+                        }
+                        err => Err(err),
+                    })
                 }
             } else {
                 quote! {
